@@ -326,7 +326,7 @@ def test(
             maybe_date=maybe_date,
         )
     else:
-        new_version = set_version
+        new_version = _normalize_set_version(raw_pattern, set_version)
 
     if new_version is None:
         _log_no_change('test', raw_pattern)
@@ -577,6 +577,26 @@ def _is_valid_version(raw_pattern: str, old_version: str, new_version: str, uniq
             return False
 
     return True
+
+
+def _normalize_set_version(raw_pattern: str, set_version: str) -> str:
+    """Spell a version given with --set-version the way the pattern renders it.
+
+    A valid version can be written in ways the pattern accepts but never produces itself,
+    e.g. '1.02.3' for 'MAJOR.MINOR.PATCH'. What is announced, tagged and checked for
+    uniqueness must be what ends up in the files.
+    """
+    is_new_pattern = "{" not in raw_pattern and "}" not in raw_pattern
+    try:
+        if is_new_pattern:
+            v2_vinfo = v2version.parse_version_info(set_version, raw_pattern)
+            return v2version.format_version(v2_vinfo, raw_pattern)
+        else:
+            v1_vinfo = v1version.parse_version_info(set_version, raw_pattern)
+            return v1version.format_version(v1_vinfo, raw_pattern)
+    except version.PatternError:
+        # reported by _is_valid_version
+        return set_version
 
 
 def incr_dispatch(
@@ -897,7 +917,7 @@ def update(
             maybe_date=maybe_date,
         )
     else:
-        new_version = set_version
+        new_version = _normalize_set_version(cfg.version_pattern, set_version)
 
     if new_version is None:
         _log_no_change('update', cfg.version_pattern)
